@@ -52,4 +52,5 @@ REG.klass("Percentage", B + "backtesting.fees.Percentage", bases=["FeeStrategy"]
 
 # --- core: token bucket -------------------------------------------------------------------------------------------
 REG.klass("TokenBucketLimiter", B + "core.token_bucket.TokenBucketLimiter",
-          fields={"_tokens_per_period": "Real", "_period_duration": "Real", "_tokens": "Real", "_last": "Real"})
+          fields={"_tokens_per_period": "Real", "_period_duration": "Real", "_tokens": "Real", "_last": "Real",
+                  "_capacity": "Real"})
